@@ -273,6 +273,12 @@ func genCtlPayload(t *rt.Tape, label string) ctlPayload {
 			others = append(others, tarFile{Name: prefix + n, Body: []byte("Package: decoy-from-" + n + "\nVersion: 0\nArchitecture: all\n")})
 		}
 	}
+	if t.Bool(1, 6, label+".bigother") {
+		// a large file next to control: the control file then straddles chunk
+		// boundaries of the decompressor's output
+		n := 20000 + t.Draw(50000, label+".bigsize")
+		others = append(others, tarFile{Name: prefix + "md5sums-big", Body: t.Sub(label + ".bigbody").Bytes(n)})
+	}
 	pos := t.Draw(len(others)+1, label+".ctlpos")
 	ctl := tarFile{Name: p.CtlName, Body: []byte(p.Model.render())}
 	p.Files = append(append(append([]tarFile{}, others[:pos]...), ctl), others[pos:]...)
